@@ -86,6 +86,20 @@ Theorem C01_grad_correct_inertiaZ : forall cell co e ax ids (s : SYS),
 Proof. exact cvc_grad_correct_inertiaZ. Qed.
 Print Assumptions C01_grad_correct_inertiaZ.
 
+Theorem C01_grad_correct_coordNum : forall co e r0 n m g1 g2 (s : SYS),
+  grp_ok0 s g1 -> grp_ok0 s g2 -> r0 <> 0 -> (1 <= n)%nat -> (1 <= m)%nat ->
+  pairs_ok r0 (gd_pos (gdata_of Rops s g1)) (gd_pos (gdata_of Rops s g2)) ->   (* no pair coincident or exactly at the cut-off *)
+  cvc_grad_correct None (mkCvc co e (KCoordNum r0 n m false) [g1; g2]) s.
+Proof. exact cvc_grad_correct_coordNum. Qed.
+Print Assumptions C01_grad_correct_coordNum.
+
+Theorem C01_grad_correct_selfCoordNum : forall co e r0 n m g1 (s : SYS),
+  grp_ok0 s g1 -> r0 <> 0 -> (1 <= n)%nat -> (1 <= m)%nat ->
+  self_ok (fun p q => l2of r0 (v3sub Rops q p) <> 0 /\ l2of r0 (v3sub Rops q p) <> 1) (gd_pos (gdata_of Rops s g1)) ->
+  cvc_grad_correct None (mkCvc co e (KSelfCoordNum r0 n m) [g1]) s.
+Proof. exact cvc_grad_correct_selfCoordNum. Qed.
+Print Assumptions C01_grad_correct_selfCoordNum.
+
 Theorem C01_grad_correct_inertia : forall cell co e ids (s : SYS),
   ids_ok s ids -> ids <> [] ->
   cvc_grad_correct cell (mkCvc co e KInertia [self_centred ids]) s.
